@@ -1,4 +1,6 @@
 CONSTANTS
+  MaxLabel = 63
+  MaxName = 255
   MaxList = 0
 INIT GInit
 NEXT GNext
